@@ -2826,6 +2826,8 @@ class Renamed(Subconstruct):
         if self.name:
             r.update(id=self.name)
         r.update(self.subcon._compilefulltype(ksy, bitwise))
+        if self.name:
+            r.update(id=self.name)
         if self.docs:
             r.update(doc=self.docs)
         return r
